@@ -36,6 +36,8 @@ type PathResult struct {
 	Reached   []string       `json:"reached,omitempty"`
 	PC        string         `json:"pc,omitempty"`
 	Notes     []string       `json:"notes,omitempty"`
+	Choices   []int          `json:"choices,omitempty"`
+	Preempts  int            `json:"preemptions,omitempty"`
 }
 
 // ReplayInput is one nondeterministic input with its concrete value.
@@ -70,6 +72,8 @@ type Report struct {
 	IfConv      int
 	Forks       map[string]int
 	DistinctOK  int
+	MaxPreempts    int
+	PreemptedPaths int
 	NontrivialOK int // ok paths that executed at least one assertion and on which the solver decided at least one branch or assertion over symbolic inputs
 }
 
@@ -218,7 +222,13 @@ func (p *Program) Explore(job Job) *Report {
 					rep.Reached[k] = true
 				}
 			}
-			pr := PathResult{Kind: out.Kind, Msg: out.Msg, Trail: trailString(finalTrail), Reached: sortedKeys(out.Reached), PC: out.PCSample, Notes: out.Notes}
+			pr := PathResult{Kind: out.Kind, Msg: out.Msg, Trail: trailString(finalTrail), Reached: sortedKeys(out.Reached), PC: out.PCSample, Notes: out.Notes, Choices: out.Choices, Preempts: out.Preempts}
+			if out.Preempts > rep.MaxPreempts {
+				rep.MaxPreempts = out.Preempts
+			}
+			if out.Preempts > 0 {
+				rep.PreemptedPaths++
+			}
 			switch out.Kind {
 			case "ok":
 				rep.DistinctOK++
@@ -275,13 +285,34 @@ func (p *Program) Explore(job Job) *Report {
 
 // runPath executes the harness once along the given trail.
 func (p *Program) runPath(job Job, solver *smt.Solver, trail []Decision, wantModel bool) (*Outcome, [][]Decision, []Decision) {
-	solver.Reset()
+	return p.runPathWith(job, solver, trail, wantModel, nil)
+}
+
+// ReplayConcrete re-executes the harness without a solver: every input takes
+// the concrete value of the counterexample and every engine choice (vrtChoose,
+// map order, schedule) the recorded one. The interpreter then runs the real SSA
+// on ordinary Go values; an assertion that fails, a panic or a deadlock here
+// confirms the counterexample independently of the symbolic machinery.
+func (p *Program) ReplayConcrete(job Job, inputs []ReplayInput, choices []int) *Outcome {
+	out, _, _ := p.runPathWith(job, nil, nil, false, &concreteRun{inputs: inputs, choices: choices})
+	return out
+}
+
+func (p *Program) runPathWith(job Job, solver *smt.Solver, trail []Decision, wantModel bool, conc *concreteRun) (*Outcome, [][]Decision, []Decision) {
+	if solver != nil {
+		solver.Reset()
+	}
 	out := &Outcome{Reached: map[string]bool{}, Funcs: map[string]int{}, Stubs: map[string]int{}, Forks: map[string]int{}}
 	m := &Machine{
 		prog: p, cfg: job.Cfg, ctx: smt.NewCtx(), solver: solver,
 		trail: append([]Decision(nil), trail...), globals: map[*ssa.Global]*value{}, out: out,
 		syncMaps: map[*value]*omap{}, sideState: map[*value]any{},
 		done: make(chan any, 1), killed: make(chan struct{}),
+	}
+	m.conc = conc
+	if pb := job.Cfg.Params["preempt"]; pb > 0 {
+		m.preemptMode = true
+		m.preemptLeft = int(pb)
 	}
 	m.cfg.Trace = job.Trace
 	mainG := &goroutine{id: 0, wake: make(chan struct{}, 1), what: "main"}
@@ -334,6 +365,9 @@ func (p *Program) runPath(job Job, solver *smt.Solver, trail []Decision, wantMod
 		out.PCSample = m.ctx.And(m.pc...).String()
 	}
 	needModel := (out.Kind == "ok" && wantModel) || ((out.Kind == "panic" || out.Kind == "fatal" || out.Kind == "deadlock") && out.Violation == nil)
+	if conc != nil {
+		needModel = false
+	}
 	if needModel {
 		res, model := solver.Check(nil, m.inputVars())
 		if res == smt.Sat {
